@@ -29,6 +29,16 @@ static CaseResult run_case(Tape &t)
 	r.render = conf_str(c) + " payload(" + std::to_string(len) + ")=" + hexs(p, 24) + " -> rv=" + std::to_string(o.rv) + " class=" + (k == 0 ? "exact" : (k == 1 ? "nothing" : (k == 2 ? "prefix" : "DIFFERENT")));
 	if (k == 3) r.fail(std::string("C09:mismatch:type=") + QTN[c.qt] + ":codec=" + DE[c.de], "client extracted different bytes than the server was given: " + r.render + " got=" + hexs(o.out, 40));
 	if (r.ok && k != 0 && o.ref_exact && (int)len <= LMAX_FIT[c.buflen > 4096][c.qt][c.de]) r.fail("C09:fits-but-not-delivered", "the payload fits the answer format (the reference decoder extracts all of it) but the client did not deliver it exactly: " + r.render);
+	// whether a payload fits is a matter of its length, not of its contents ("if a payload of some length is delivered exactly, so is every
+	// shorter one"): the same length filled with 0xff (no NUL, no byte a codec treats specially) must not fare better than the generated one
+	{
+		Bytes q(len, 0xff); q[0] = (uint8_t)(0x80 | (len & 0x7f));
+		Outcome oq = roundtrip(c, q, (uint16_t)(1 + t.below(65535)));
+		int kq = classify(q, oq);
+		if (r.ok && kq == 0 && k != 0) r.fail(std::string("C09:content-dependent:type=") + QTN[c.qt] + ":codec=" + DE[c.de], "a payload of this length is delivered exactly when it consists of 0xff bytes, but the generated payload of the same length is not: " + r.render);
+		if (r.ok && kq == 3) r.fail(std::string("C09:mismatch:type=") + QTN[c.qt] + ":codec=" + DE[c.de], "client extracted different bytes than the server was given (0xff payload): " + r.render);
+		if (r.ok && k == 0 && kq != 0) r.fail(std::string("C09:content-dependent:type=") + QTN[c.qt] + ":codec=" + DE[c.de], "the generated payload is delivered exactly, but a payload of the same length consisting of 0xff bytes is not: " + r.render);
+	}
 	// the outcome is a matter of the answer format, not of the length of the echoed query name
 	Conf c2 = c; c2.namekind = (c.namekind + 1 + (int)t.below(3)) % 4;
 	Outcome o2 = roundtrip(c2, p, (uint16_t)(1 + t.below(65535)));
